@@ -32,7 +32,7 @@ SPEC = os.path.join(VERIF, 'specs', 'Handshake')
 
 ALL_MSGS = ('{"VC","VS","IC","IS","GREQ","GGRP","INIT","REPLY","PUBKEY",'
             '"SECRET","DONE","NKS","NKC"}')
-ALL_FIELDS = ('{"v","eol","banner","pad","cookie","kex","hostkey","enc_cs",'
+ALL_FIELDS = ('{"v","eol","banner","tail","split","pad","cookie","kex","hostkey","enc_cs",'
               '"enc_sc","mac_cs","mac_sc","cmp_cs","cmp_sc","ff","strict",'
               '"rest","req","grp","e","f","ks","sig","kt","enc","menc"}')
 INVS = ['AgreeOrFail', 'BothOrNeither', 'NoDowngrade', 'FirstClientPref',
@@ -43,7 +43,7 @@ def write_cfg(name, invariants=(), **consts):
     d = dict(KexType='"dh"', MaxEdits=1, VaryCats='{}', VaryMode='"product"',
              EditListMode='"all"',
              TrustAllSet='{FALSE}', HashOmit='{}', PreferServer='FALSE',
-             SignBlind='FALSE',
+             SignBlind='FALSE', ServerSkipsBanner='FALSE',
              EditMsgs=ALL_MSGS, EditFields=ALL_FIELDS, Emit='FALSE')
     d.update(consts)
     lines = ['CONSTANTS'] + [f'  {k} = {v}' for k, v in d.items()]
@@ -418,6 +418,9 @@ def main(ctx):
                 KexType='"gex"', SignBlind='TRUE',
                 EditMsgs='{"GGRP", "INIT", "REPLY"}', expect='EditDetected',
                 invariants=['EditDetected'], workers=W)
+        tlc_run(ctx, 'sensitivity: the server skips lines before the version',
+                ServerSkipsBanner='TRUE', EditMsgs='{"VC", "VS"}',
+                expect='EditDetected', invariants=['EditDetected'], workers=W)
         tlc_run(ctx, 'sensitivity: choose_alg prefers the server list',
                 KexType='"dh"', PreferServer='TRUE', MaxEdits=0,
                 VaryCats='{"enc"}', expect='NoDowngrade',
@@ -658,6 +661,28 @@ def main(ctx):
                   f'client_error={o.client_exc!r} server={o.server_lost} '
                   f'effects={o.effects} session ids equal='
                   f'{o.sid_c == o.sid_s and o.sid_c is not None}')
+            ctx.traces_validated(1)
+            ctx.level = 'exploration'
+            return
+        if rp['kind'] == 'ident':
+            names = names_for(kex, pick_others(kex))
+            cl, chk = fixed_lists(names)
+            sl, shk = fixed_lists(names)
+            op, _, num = rp['op'].partition('#')
+            fn = {'v:changed': H.e_version, 'v:refused': H.e_version_bad,
+                  'banner': H.e_banner, 'tail': H.e_tail,
+                  'split': H.e_split}.get(op)
+            fn = H.e_eol if fn is None else fn(int(num))
+            ed = {'msg': rp['msg'], 'fn': fn, 'label': rp['label']}
+            o = H.run_handshake(kex, client=cl, server=sl, edits=[ed],
+                                server_hostkeys=shk, client_hostkey_algs=chk,
+                                run_command=False)
+            judge(o, None, kex, names, rp['label'],
+                  bytelevel=f'{rp["label"]}:{(o.effects or ["none"])[0]}',
+                  recipe=rp)
+            print(f'replayed {rp["label"]}: completed={o.completed} '
+                  f'client_error={o.client_exc!r} server={o.server_lost} '
+                  f'effects={o.effects}')
             ctx.traces_validated(1)
             ctx.level = 'exploration'
             return
@@ -936,6 +961,45 @@ def main(ctx):
     ctx.notes.append(f'structured strings re-spelled (inner mpints of RSA '
                      f'host keys / certificates / K_T, nested certificate '
                      f'blobs, ECDSA r,s): {state["structured"]} handshakes')
+    # the identification exchange, both directions: every variant of every
+    # edit class (the case tables pick one variant per row)
+    def ident_sweep(kex):
+        names = names_for(kex, pick_others(kex))
+        cl, chk = fixed_lists(names)
+        sl, shk = fixed_lists(names)
+        for m in ('VC', 'VS'):
+            eds = [(f'v:changed#{i}', H.e_version(i)) for i in range(8)]
+            eds += [(f'v:refused#{i}', H.e_version_bad(i)) for i in range(3)]
+            eds += [(f'banner#{i}', H.e_banner(i)) for i in range(6)]
+            eds += [(f'tail#{i}', H.e_tail(i)) for i in range(4)]
+            eds += [(f'split#{i}', H.e_split(i)) for i in range(5)]
+            eds += [('eol:lf', H.e_eol)]
+            for lbl, fn in eds:
+                ed = {'msg': m, 'fn': fn, 'label': f'{m}.{lbl}'}
+                o = H.run_handshake(kex, client=cl, server=sl,
+                                    edits=[ed], server_hostkeys=shk,
+                                    client_hostkey_algs=chk,
+                                    run_command=False)
+                eff = '+'.join(sorted(set(o.effects))) or 'none'
+                judge(o, None, kex, names, ed['label'],
+                      bytelevel=f'{ed["label"]}:{eff}',
+                      recipe={'kind': 'ident', 'msg': m, 'op': lbl})
+                model_compare(o, eff in ('harmless', 'none'), kex,
+                              ed['label'])
+                ctx.count(('ident', kex, ed['label']))
+                state['traces'] += 1
+                state['ident'][eff, o.completed] = \
+                    state['ident'].get((eff, o.completed), 0) + 1
+    state['ident'] = {}
+    for kex in (main_fams[:2] if quick else main_fams):
+        ident_sweep(kex)
+    ctx.notes.append('identification exchange edits by (effect, '
+                     'completed): ' + ', '.join(
+                         f'{k[0]}/{k[1]}={v}' for k, v in
+                         sorted(state['ident'].items())))
+    ctx.require(state['ident'].get(('harmless', True), 0) >= 10 and
+                state['ident'].get(('bound', False), 0) >= 30,
+                f'identification sweep is vacuous: {state["ident"]}')
     if quick:
         recode_sweep('curve25519-sha256', ('IC', 'IS') + KEXMSGS)
         for kex in main_fams[1:]:
